@@ -60,5 +60,5 @@ func timeIntrinsic(name string, fn *ssa.Function) intrinsicFn {
 		}
 	}
 	_ = token.ADD
-	return nil
+	return stringsIntrinsic(name, fn)
 }
